@@ -412,13 +412,17 @@ def loop_escapes(ctx, fn: Func, loop: ast.While, safe_calls: Iterable[str] = ())
     return out
 
 
-def nonempty_implied(test: ast.AST, cont: str, nonneg: Iterable[str] = ()) -> bool:
-    """does `test` being true imply that container expression `cont` (source text) is non-empty?"""
+def nonempty_implied(test: ast.AST, cont: str, nonneg: Iterable[str] = (), pos: Iterable[str] = ()) -> bool:
+    """does `test` being true imply that container expression `cont` (source text) is non-empty?  `nonneg` / `pos`: source
+    texts of expressions known to be >= 0 / >= 1."""
     nn = set(nonneg)
+    ps = set(pos)
     if isinstance(test, ast.BoolOp) and isinstance(test.op, ast.And):
-        return any(nonempty_implied(v, cont, nn) for v in test.values)
+        # a bare truthy conjunct that is known non-negative is >= 1 for the other conjuncts
+        ps2 = ps | {src(v) for v in test.values if src(v) in nn}
+        return any(nonempty_implied(v, cont, nn, ps2) for v in test.values)
     if isinstance(test, ast.BoolOp) and isinstance(test.op, ast.Or):
-        return all(nonempty_implied(v, cont, nn) for v in test.values)
+        return all(nonempty_implied(v, cont, nn, ps) for v in test.values)
     if src(test) == cont:
         return True
     if isinstance(test, ast.Compare) and len(test.ops) == 1:
@@ -431,6 +435,8 @@ def nonempty_implied(test: ast.AST, cont: str, nonneg: Iterable[str] = ()) -> bo
             """a proven lower bound of e"""
             if isinstance(e, ast.Constant) and isinstance(e.value, (int, float)) and not isinstance(e.value, bool):
                 return int(e.value)
+            if src(e) in ps:
+                return 1
             if src(e) in nn:
                 return 0
             if isinstance(e, ast.Call) and dotted(e.func) == "max":
@@ -454,6 +460,36 @@ def nonempty_implied(test: ast.AST, cont: str, nonneg: Iterable[str] = ()) -> bo
             if isinstance(op, ast.LtE) and lb is not None and lb >= 1:
                 return True
     return False
+
+
+def pops_in_loop(loop: ast.While) -> List[Tuple[ast.Call, str]]:
+    """(call, container source) for popitem() / popleft() / pop() with no key on an attribute of self inside the loop body"""
+    out = []
+    for st in loop.body:
+        for x in walk_no_defs(st):
+            if isinstance(x, ast.Call) and isinstance(x.func, ast.Attribute) and isinstance(x.func.value, ast.Attribute) and isinstance(x.func.value.value, ast.Name) \
+                    and x.func.value.value.id == "self":
+                if x.func.attr in ("popitem", "popleft") or (x.func.attr == "pop" and not x.args):
+                    out.append((x, src(x.func.value)))
+    return out
+
+
+def init_lower_bounds(ctx, cls_qual: str) -> Dict[str, int]:
+    """attributes of self that __init__ provably keeps >= b: `self.a = max(b, ...)`"""
+    out: Dict[str, int] = {}
+    init = ctx.prog.methods(cls_qual).get("__init__")
+    if init is None:
+        return out
+    for x in walk_no_defs(init.node):
+        if isinstance(x, (ast.Assign, ast.AnnAssign)):
+            ts = x.targets if isinstance(x, ast.Assign) else [x.target]
+            v = x.value
+            for t in ts:
+                if isinstance(t, ast.Attribute) and isinstance(t.value, ast.Name) and t.value.id == "self" and isinstance(v, ast.Call) and dotted(v.func) == "max":
+                    cs = [a.value for a in v.args if isinstance(a, ast.Constant) and isinstance(a.value, int) and not isinstance(a.value, bool)]
+                    if cs:
+                        out[f"self.{t.attr}"] = max(cs)
+    return out
 
 
 # ------------------------------------------------------------------ positive controls (zero-expected rules)
